@@ -60,4 +60,40 @@ theorem sw_mt_m : ("merge.tool".startsWith "merge.jupyternotebook.") = false := 
 theorem sw_gt_d : ("diff.guitool".startsWith "diff.jupyternotebook.") = false := by decide
 theorem sw_gt_m : ("diff.guitool".startsWith "merge.jupyternotebook.") = false := by decide
 
+/-- last write wins -/
+def lastWrite (k : String) : List (String × String) → Option String
+  | [] => none
+  | (a, v) :: rest => match lastWrite k rest with
+      | some v' => some v'
+      | none => if a = k then some v else none
+
+
+theorem lookupKV_cons {α} (k a : String) (b : α) (rest : List (String × α)) :
+    lookupKV k ((a, b) :: rest) = if a = k then some b else lookupKV k rest := by
+  simp [lookupKV]
+
+theorem lookupKV_insertKV {α} (k' : String) (v : α) (t : List (String × α)) (k : String) :
+    lookupKV k (insertKV k' v t) = if k = k' then some v else lookupKV k t := by
+  induction t with
+  | nil => simp only [insertKV, lookupKV_cons]; split <;> split <;> simp_all [lookupKV]
+  | cons kv rest ih =>
+    obtain ⟨a, b⟩ := kv
+    simp only [insertKV]
+    split
+    · simp only [lookupKV_cons]; grind
+    · split
+      · simp only [lookupKV_cons]; grind
+      · simp only [lookupKV_cons, ih]; grind
+
+theorem lookupKV_eraseKV {α} (k' : String) (t : List (String × α)) (k : String) :
+    lookupKV k (eraseKV k' t) = if k = k' then none else lookupKV k t := by
+  induction t with
+  | nil => simp [eraseKV, lookupKV]
+  | cons kv rest ih =>
+    obtain ⟨a, b⟩ := kv
+    simp only [eraseKV]
+    split
+    · simp only [lookupKV_cons, ih]; grind
+    · simp only [lookupKV_cons, ih]; grind
+
 end Nbdime
